@@ -4,9 +4,9 @@ CLAIM = ("lha_crc16_buf == CRC-16/ARC: the one-byte step for all 2^24 (state, by
 ASSUMPTIONS = ["buffers longer than the bound follow by induction on the verified step (argument, not a query)"]
 U = ["lib/crc16.c"]
 HARNESSES = [
-    dict(name="crc.sweep160", src="C17/crc.c", entry="harness_sweep", defines=["SWEEP=160"], unwind=3, unwindset={"lha_crc16_buf.0": 170, "harness_sweep.0": 170, "harness_sweep.1": 170}, units=U, timeout=900, mem_gb=8,
+    dict(name="crc.sweep160", src="C17/crc.c", entry="harness_sweep", defines=["SWEEP=160"], unwind=170, units=U, timeout=900, mem_gb=8,
          bounds="CONCRETE paths: every length 0..160 at start alignments 0..3, zero data, start value 0x1234, against one-byte steps"),
-    dict(name="crc.sweep520", src="C17/crc.c", entry="harness_sweep", defines=["SWEEP=520"], unwind=3, unwindset={"lha_crc16_buf.0": 530, "harness_sweep.0": 530, "harness_sweep.1": 530}, units=U, timeout=3000, mem_gb=8, tier="thorough",
+    dict(name="crc.sweep520", src="C17/crc.c", entry="harness_sweep", defines=["SWEEP=520"], unwind=530, units=U, timeout=3000, mem_gb=8, tier="thorough",
          bounds="CONCRETE paths: every length 0..520 at start alignments 0..3"),
     dict(name="crc.null", src="C17/crc.c", entry="harness_null", unwind=9, units=U, timeout=120, bounds="all states, empty piece given as (NULL, 0) between two 1-byte pieces"),
     dict(name="crc.big", src="C17/crc.c", entry="harness_big", unwind=3, unwindset={"lha_crc16_buf.0": 65540}, units=U, timeout=900, mem_gb=8, object_bits=8, 
